@@ -239,6 +239,22 @@ def judge(e, open_ids):
     return "violation", f"accepted although {spec} (classes {sorted(ids)} not all recorded open)"
 
 
+def category(e, open_ids):
+    """finer class of a violation, kept fixed while shrinking"""
+    v, detail = judge(e, open_ids)
+    if v != "violation":
+        return None
+    if e["coq"] and " ## " in e["coq"] and e["impl"] == "ok":
+        spec = e["coq"].split(" ## ")[1]
+        if any(x.startswith("unfit:") and x.split("|")[3] == "" for x in spec.split(";")):
+            return "accepted_unfit"
+    if detail.startswith("accepted although"):
+        return "accepted_unfit"
+    if detail.startswith("generator panics"):
+        return "panic"
+    return "model_mismatch"
+
+
 def fn_name():
     return f'c13_result {ac.fx_flag()} {ac.FUEL} "{ac.DEV}"'
 
@@ -476,10 +492,12 @@ def run(ctx):
         lst = all_known[i]
         vlib.known_finding(ctx, findings.get(i, {"id": i}), f"{len(lst)} observation(s); e.g. {min(lst, key=len)}")
     if bad:
-        bad.sort(key=lambda b: len([x for x in items if x[0] == b[0]][0][3]))
+        text_len = {x[0]: len(x[3]) for x in items}
+        bad.sort(key=lambda b: (category(res[b[0]], open_ids) != "accepted_unfit", text_len[b[0]]))
         cid, detail = bad[0]
         d, sx = defs[cid]
-        small = ac.shrink(ctx, exe, d, lambda e: judge(e, open_ids)[0] == "violation"
+        cat = category(res[cid], open_ids)
+        small = ac.shrink(ctx, exe, d, lambda e: category(e, open_ids) == cat
                           and not e["impl"].startswith("error:ref_") and not e["impl"].startswith("error:other")
                           and not e["impl"].startswith("error:dup"), fn)
         sres = ac.run_batch(ctx, exe, [("r", small, "dsl", adef.render(small, "dsl"))], fn, tag="c13r")["r"]
